@@ -299,6 +299,12 @@ type OrderOpts struct {
 func (r *Report) Order(rule string, u *Unit, b M, as []M, o OrderOpts) {
 	bs := u.Match(b)
 	r.Min(rule, len(bs), max(o.Min, 1), u.Name+": "+b.Desc())
+	r.OrderSites(rule, u, bs, nil, as, o)
+}
+
+// OrderSites is Order for an explicit list of target sites (which may be synthetic, e.g. variable
+// uses); label, if non-nil, names each target in the construct.
+func (r *Report) OrderSites(rule string, u *Unit, bs []*flow.Site, label func(*flow.Site) string, as []M, o OrderOpts) {
 	var gates []gate
 	var why []string
 	na := 0
@@ -370,7 +376,13 @@ func (r *Report) Order(rule string, u *Unit, b M, as []M, o OrderOpts) {
 		}
 	}
 	for _, bsite := range bs {
-		construct := fmt.Sprintf("%s: %s preceded by %s", u.Name, u.SiteString(bsite), strings.Join(adesc, " | "))
+		bname := ""
+		if label != nil {
+			bname = label(bsite)
+		} else {
+			bname = u.SiteString(bsite)
+		}
+		construct := fmt.Sprintf("%s: %s preceded by %s", u.Name, bname, strings.Join(adesc, " | "))
 		if o.SkipErrEdges {
 			construct += " on non-error paths"
 		}
